@@ -362,6 +362,19 @@ fn main() {
             libc::dup2(devnull, 1);
         }
     }
+    // OpenSSL default verify paths: the fixture trust file instead of the system bundle (93 ms -> 2 ms
+    // per connect); it is also the trusted / untrusted certificate switch
+    if std::env::var_os("VERIF_SIM_ENV").is_none() {
+        // must be in the environment the process starts with: re-execute ourselves
+        let status = std::process::Command::new(std::env::current_exe().unwrap())
+            .args(&args[1..])
+            .env("SSL_CERT_FILE", format!("{}/trust.pem", simcore::refsrv::server::fixtures_dir()))
+            .env("SSL_CERT_DIR", "/nonexistent")
+            .env("VERIF_SIM_ENV", "1")
+            .status()
+            .expect("re-exec");
+        std::process::exit(status.code().unwrap_or(2));
+    }
     harness::install_panic_hook();
     let cmd = args.get(1).map(|s| s.as_str()).unwrap_or("");
     let code = match cmd {
